@@ -13,7 +13,12 @@ shutil.copyfile("/repo/Cargo.lock", os.path.join(vlib.HARNESS, "Cargo.lock"))
 for extra in ([], ["--release"], ["--features", "no_unroll"], ["--features", "no_unroll", "--release"]):
     subprocess.run(["cargo", "build", "--offline", "--quiet", "--bins"] + extra, cwd=vlib.HARNESS, env=env)
 for extra in (["--features", "no_simd"], ["--features", "no_simd", "--release"]):
-    subprocess.run(["cargo", "build", "--offline", "--quiet", "--bin", "h_ppvgen"] + extra, cwd=vlib.HARNESS, env=env)
+    subprocess.run(["cargo", "build", "--offline", "--quiet", "--bin", "h_ppvgen", "--bin", "h_chacha"] + extra, cwd=vlib.HARNESS, env=env)
+# this machine's SIMD target features enabled at compile time (C04, C07): own target directory
+native = tuple(vlib.native_rustflags())
+if native:
+    for b in ("h_groestl", "h_blake"):
+        vlib.cargo_build(profile="release", bin_name=b, rustflags=native)
 # per-check warm-up hooks (optional `warm()` in checks/<id>.py)
 claimed = json.load(open("tools/claimed.json"))
 for pid in claimed:
